@@ -53,6 +53,7 @@ type Ctx struct {
 	Census  []Census
 	Notes   []string
 	seenKey map[string]int
+	ran     map[string]bool // rule groups that already ran for this property (a group can be part of several rule sets)
 	// statistics
 	FuncsAnalysed map[string]bool
 	CallSites     int
@@ -109,6 +110,18 @@ func (c *Ctx) census(rule, what string, count, floor int) {
 		c.undecided(rule, "", "census:"+what, token.NoPos,
 			fmt.Sprintf("rule subjects vanished: found %d %s, expected at least %d (a rule that matches nothing must not pass vacuously)", count, what, floor))
 	}
+}
+
+// ranOnce: true if the named rule group already ran in this context.
+func (c *Ctx) ranOnce(name string) bool {
+	if c.ran == nil {
+		c.ran = map[string]bool{}
+	}
+	if c.ran[name] {
+		return true
+	}
+	c.ran[name] = true
+	return false
 }
 
 func (c *Ctx) note(format string, a ...any) { c.Notes = append(c.Notes, fmt.Sprintf(format, a...)) }
